@@ -177,7 +177,7 @@ def ops_on(e, mode="full", rich=True):
     dim = G.total_dim(ins)
     fr = _fresh(FRESH_REAL, t, 3)
     fb = _fresh(FRESH_BATCH, t, 2)
-    u, v, w = (fr + [None] * 3)[:3]
+    u, v = (fr + [None] * 2)[:2]
     k, l = (fb + [None] * 2)[:2]
     out = []
     bdesc = tuple((n, "b", s) for n, s in batch)
@@ -216,7 +216,7 @@ def ops_on(e, mode="full", rich=True):
         out.append(("subs-real:mixed-batched", ("subs", e, ((n0, rt(n0, s0, ())), (n1, rt(n1, s1, bdep))))))
 
     # ---- integer index / slice / index tensor for a batch input
-    for bi, (n, s) in enumerate(batch):
+    for n, s in batch:
         ks = sorted({0, s - 1}) if full else [s - 1]
         for kk in ks:
             out.append(("subs-int:int", ("subs", e, ((n, ("int", kk)),))))
@@ -566,7 +566,7 @@ def _fin(inputs):
 
 
 def build_value(val, target_dom, seed):
-    from funsor.domains import Bint, Reals
+    from funsor.domains import Reals
     from funsor.tensor import Tensor
     from funsor.terms import Slice, Variable
 
@@ -739,7 +739,9 @@ def snippet(e, seed, point=None, bidx=None, expected=None, actual=None):
         )
         lines.append("v = r(**point) if point else r")
         lines.append("print('result at the point:', v, getattr(v, 'inputs', None))")
-        lines.append("print('batch index %r: actual', v.data[tuple(%r[n] for n in v.inputs)] if hasattr(v, 'data') else v)" % (bidx, bidx))
+        lines.append("bidx = %r" % (bidx,))
+        lines.append("print('batch index', bidx, 'actual:', v.data[tuple(bidx[n] for n in v.inputs)] if hasattr(v, 'data') else v)")
+        lines.append("print('expected (dense quadratic form at the transformed point):', %r)" % (expected,))
         lines.append("# reference value (dense quadratic form at the transformed point): %r; funsor gave %r" % (expected, actual))
     return "\n".join(lines)
 
